@@ -78,6 +78,29 @@ func positiveAt(p *engine.Program, fn *ssa.Function, site ssa.Instruction, v ssa
 		}
 	}
 	switch x := v.(type) {
+	case *ssa.Parameter:
+		// the cost is handed to a private helper: positive iff it is at every call site
+		if obj, _ := fn.Object().(*types.Func); obj != nil && !obj.Exported() && fnValueUses(p, fn) == 0 {
+			idx := -1
+			for i, pp := range fn.Params {
+				if pp == x {
+					idx = i
+				}
+			}
+			n := 0
+			for _, cs := range p.CallSitesOf(obj) {
+				if engine.IsMock(cs.Parent()) || idx < 0 || idx >= len(cs.Common().Args) {
+					continue
+				}
+				n++
+				if ok, why := positiveAt(p, cs.Parent(), cs, cs.Common().Args[idx], inProgress); !ok {
+					return false, "argument at " + p.Pos(cs.Pos()) + ": " + why
+				}
+			}
+			if n > 0 {
+				return true, "parameter of a private helper; positive at every call site"
+			}
+		}
 	case *ssa.Phi:
 		for _, e := range x.Edges {
 			ok, why := positiveAt(p, fn, site, e, inProgress)
